@@ -787,7 +787,7 @@ def run(ctx):
     ctx.extra['setters_skipped'] = skipped
 
     cases = directed()
-    per = ctx.scale(10, 160)
+    per = ctx.scale(24, 400)
     for spec in specs():
         k = per if spec.name != 'VectorVortexCoronagraph' else max(2, per // 4)
         for j in range(k):
@@ -816,7 +816,7 @@ def run(ctx):
 
     # Fourier objects
     O = fourier_objects()
-    nf = ctx.scale(6, 60)
+    nf = ctx.scale(8, 100)
     memo_lines = []
     memo_expect = []
     for name in O:
